@@ -96,6 +96,12 @@ CHECKS.update({
    text="E1: one step of run/pos/inc and of the single-neuron controller from an arbitrary finite state (|v| <= 1e30; float 1e9): output inside the limits (NaN maps to outmin), returned value = stored output, state finite, integrator never moves further beyond its clamp, gains/limits untouched, zero() clears the state - inductive, hence any history length. E2: K = 3 (4) steps with symbolic gains/limits/inputs: positional output = documented equation, incremental output coincides while no limit is active, saturated equations from an arbitrary real state, zeroing = fresh controller; fuzzy controller of order 2 (3) over triangular/trapezoid sets, all seven operators: output within limits, no division by a zero weight sum.",
    note=E2NOTE + REALNOTE + " The equilibrium operator is used through its contract inside the controller (proved in C13)."),
 })
+CHECKS.update({
+ "C13": dict(engine="llsym+cbmc", cat="model_checking", design="4/C13",
+   technique="llsym symbolic execution of src/mf.c, src/fuzzy.c, src/pid_fuzzy.c with a_real as z3 Real (exp/pow uninterpreted with contracts), z3 nlsat for range/shape/continuity/complement/operator/gain clauses; CBMC bit-precise for the min/max operators",
+   text="All 13 membership families for all real inputs and well-ordered parameter tuples: value in [0,1] (no division by a zero width), dispatcher = specific function, core/support/monotone-flank shape, continuity at every break point, S+Z = 1 and lins+linz = 1; the seven operators on [0,1]^2: range, commutativity, monotonicity, min/max bounds, boundary cases (min/max also bit-precisely); scheduled gains = base + weighted mean of the consequents, inside the consequent range; scratch buffer of exactly the documented size never overrun (order 3 with two simultaneously active sets).",
+   note=E2NOTE + REALNOTE + " Bit-precise range of the membership functions is outside: floating-point division circuits give no SAT verdict within the budget."),
+})
 NOT_YET = {}
 
 def main():
